@@ -45,7 +45,9 @@ def saveLastErrorF (x : FW) (id : String) : FW := if (x.w.store.tasks id).isSome
 def startTaskF (env : Env) (fail : List String) (x : FW) (id : String) (t : Task) : FW × Bool :=
   if !buildable env t then (x.note "start-unbuildable", false)
   else if !startable fail id t then ((saveLastErrorF (saveLastErrorF x id) id).note "start-refused", false)
-  else (((saveLastErrorF x id).setExec id true).note "start-ok", true)
+  else if !batchable env t then
+    (((saveLastErrorF ((saveLastErrorF x id).setExec id true) id).setExec id false).note "start-batching-refused", false)
+  else (((saveLastErrorF x id).setExec id true).note (if taskIsBatch env t then "start-ok-batch" else "start-ok"), true)
 
 /-- The tail of handleCreateTask: start the task when it is enabled. -/
 def startCreatedF (env : Env) (fail : List String) (x : FW) (id : String) (t : Task) : FW × Resp :=
